@@ -956,7 +956,7 @@ func TestVerifC03Crash(t *testing.T) {
 	if root == "" {
 		root = t.TempDir()
 	}
-	budget := 40 // real-trace crash points per workload
+	budget := 25 // real-trace crash points per workload
 	maxHit := 3
 	nrandom := 0
 	if !verifh.Quick() {
